@@ -28,7 +28,7 @@ PRE = ['reset', 'mk.dom\t0\ta\t5\t-\t-', 'mk.dom\t0\tb\t5\t-\t-',
        'mk.cplx\t0\tA\t-\th0\t.', 'mk.cplx\t0\tB\t-\th1\t.', 'mk.cplx\t0\tC\t-\th0 h1\t..', 'mk.cplx\t0\tD\t-\th1 + h0 h0\t(+).',
        'mk.cplx\t0\tE\t-\th0 + h0\t(+)', 'mk.cplx\t0\tC2\t-\th0 h1\t()']     # C2: same sequence as C, other structure
 CX = [2, 3, 4, 5, 6, 7]          # handles of the complexes
-RTYPES = ['bind21', 'open', 'condensed', 'branch-3way']
+RTYPES = ['bind21', 'open', 'condensed', 'branch-3way', 'k1', 'k2']       # the last two are not library types: still part of the identity
 
 
 def hs(l):
